@@ -188,6 +188,25 @@ def witnesses(ck):
                     break
             if kw.get("debug") and "p_id" in out.columns and [int(x) for x in out["p_id"]] != [int(x) for x in data["p_id"]]:
                 bad.append(f"{label}: input columns are not in input order")
+        # (e) a person with a missing value (NaN) in a float input: a column must not change when an aggregate
+        # of it (or of something computed from it) is requested next to it, and the caller's data stay as they were
+        with_nan = df.copy()
+        with_nan["bruttolohn_m"] = with_nan["bruttolohn_m"].astype(float)
+        with_nan.loc[1, "bruttolohn_m"] = numpy.nan
+        for small, more in ((["bruttolohn_y"], ["bruttolohn_y_hh"]), (["bruttolohn_m"], ["bruttolohn_m_hh"]), (["bruttolohn_y"], ["bruttolohn_m_sn", "bruttolohn_y_fg"])):
+            given = with_nan.copy()
+            try:
+                a, b = run(given, small), run(given, small + more)
+            except Exception as e:   # noqa: BLE001 -- a loud refusal of missing values is not a dependence on the targets
+                ck.extra.setdefault("witness_notes", []).append(f"missing value: {type(e).__name__}"[:80])
+                runs += 2
+                continue
+            runs += 2
+            for t in small:
+                if not numpy.array_equal(a[t].to_numpy(dtype=float), b[t].to_numpy(dtype=float), equal_nan=True):
+                    bad.append(f"missing value in bruttolohn_m: {t} is {a[t].tolist()} for targets {small} but {b[t].tolist()} for targets {small + more}")
+            if not given.equals(with_nan):
+                bad.append(f"missing value in bruttolohn_m: the caller's data were modified by computing {small + more}")
     ck.extra["integration_witness_runs"] = runs
     if not bad:
         ck.discharged += 1
